@@ -151,8 +151,8 @@ mutant('c11_compiled_has_match_uses_match', 'C11', ['C11'], 'compiled path of ha
        [(PRE, '            if self.__compiled is None else self.__compiled.search(source))', '            if self.__compiled is None else self.__compiled.match(source))')])
 mutant('c11_discard_keeps_stale', 'C11', ['C11', 'C20'], 'compile() of a long pattern stores a compiled object of the first 64 characters',
        'patterns longer than 64 characters used after compile()',
-       [(PRE, '        self.__compiled = _re.compile(self.get_pattern(), flags=self.__flags)',
-         '        pattern = self.get_pattern()\n        self.__compiled = _re.compile(pattern if len(pattern) <= 64 or pattern[:64].count("(") else pattern[:64], flags=self.__flags)')])
+       [(PRE, '        self.__compiled = _re.compile(self.__pattern, flags=self.__flags)',
+         '        pattern = self.__pattern\n        self.__compiled = _re.compile(pattern if len(pattern) <= 64 or pattern[:64].count("(") else pattern[:64], flags=self.__flags)')])
 # ---- C12
 mutant('c12_relative_named_first_only', 'C12', ['C12'], 'relative positions of named captures are shifted only for the first named group',
        'relative_to_match=True with two or more named groups in a match that does not start at 0',
